@@ -10,7 +10,7 @@
    on PeerChannelEncryptor) joined by the harness socket pair, and records the observable events.
 3. TLC validates the recorded trace against spec/TransportAbstract.tla (TransportTrace.tla).
 """
-import json, os, random, time
+import json, os, random, re, time
 import vlib
 
 PID = "C15"
@@ -62,6 +62,16 @@ def convert(script, rng, variant):
             o["flavour"] = rng.randrange(3)
         ops.append(o)
     return {"mode": script["mode"], "ops": ops}
+
+
+def clause_of(wd, tag):
+    """The clause TLC printed when it refused the offending step (TransportTrace!Report)."""
+    try:
+        with open(os.path.join(wd, "tlc-trace-%s.out" % tag)) as f:
+            m = re.findall(r'<<"CLAUSE", "(\w+)", \d+>>', f.read())
+        return m[-1] if m else "no action of the specification matches this event"
+    except OSError:
+        return None
 
 
 def selftest(wd, good_lines):
@@ -189,7 +199,7 @@ def run(tier, seed):
         scripts += got
         r.pop("out")
         mcs.append((cfg, r))
-    cap = 40000 if thorough else 6000
+    cap = 40000 if thorough else 4000
     if len(scripts) > cap:
         scripts = rng.sample(scripts, cap)
     nvar = 3 if thorough else 2
@@ -203,7 +213,7 @@ def run(tier, seed):
             f.write(json.dumps(s) + "\n")
 
     # ---- 2. run the real code
-    nrand = 40000 if thorough else 5000
+    nrand = 40000 if thorough else 4000
     rots = ["--rot", "24:3300", "--rot", "8:6200"] if thorough else ["--rot", "8:640"]
     tpath = os.path.join(wd, "trace.ndjson")
     rpath = os.path.join(wd, "random-scripts.ndjson")
@@ -222,7 +232,8 @@ def run(tier, seed):
     total, fails = vlib.validate_trace(PID, "TransportTrace", "TransportTrace.cfg", tpath, timeout=3000)
     nviol = 0
     rand_scripts = None
-    for fl in fails:
+    for i, fl in enumerate(fails):
+        fl["inv"] = clause_of(wd, "t%d" % (i + 1))
         runid = fl["run"]
         if runid - 1 < len(conv):
             script = conv[runid - 1]
